@@ -699,6 +699,76 @@ def b_snap_insert(S):
         extra_params=[("{P}", "Type"), ("{L}", "Type"), ("dist", "P → L → Rat"), ("on", "P → L → Bool"), ("insert", "L → P → Rat → L")], default_num="Rat")
     return out
 
+def b_insert_point(S):
+    """`determine_insert_approach` and `insert_point_to_linestring` (the vertex insertion both snapping stages end in): the
+    coincidence guard, the distance table and its sort, the closest segment (first minimum), the restriction of the nearest vertex
+    to the ends of the closest segment, the insert / replace decision, `pop` / `insert` on the coordinate list. Point distances,
+    point-to-segment distances, coincidence and the angle comparison of the (overwritten) middle branch are parameters; a
+    distance is never NaN in the model."""
+    src0 = S[BAN]
+    TPD = "List (Nat × P × Rat)"
+    C1 = {
+        "nearest_point.distance(point)": "(pdist nearest_point point)",
+        "nearest_point.wkt == point.wkt": "(same nearest_point point)",
+        "np.isnan(nearest_point_distance_to_point)": "false",
+        "[(vals, angle_to_point(point=point, nearest_point=nearest_point, comparison_point=vals[1])) for vals in trace_point_dists if vals[0] in (nearest_point_idx - 1, nearest_point_idx + 1)]":
+            "(List.map (fun vals => (vals, angle point nearest_point vals.2.1)) (List.filter (fun vals => List.elem vals.1 [nearest_point_idx - 1, nearest_point_idx + 1]) trace_point_dists))",
+        "sorted(points_on_either_side, key=lambda vals: vals[1])": "(pySortedBy (fun vals => vals.2) points_on_either_side)",
+        "points_on_either_side[0][0][0]": "((List.headD points_on_either_side ((0, point, 0), 0)).1.1)",
+        "max((vals[0] for vals in trace_point_dists))": "(List.foldl max 0 (List.map (fun vals => vals.1) trace_point_dists))",
+    }
+    PES = "List ((Nat × P × Rat) × Rat)"
+    T1 = {"nearest_point.distance(point)": "Rat", "nearest_point_distance_to_point": "Rat", "nearest_point.wkt == point.wkt": "Bool",
+          "np.isnan(nearest_point_distance_to_point)": "Bool", "points_on_either_side": PES, "vals": "Nat × P × Rat",
+          "sorted(points_on_either_side, key=lambda vals: vals[1])": PES, "points_on_either_side[0][0][0]": "Nat", "smallest_angle_idx": "Nat",
+          "max((vals[0] for vals in trace_point_dists))": "Nat", "idx": "Nat", "insert": "Bool",
+          "[(vals, angle_to_point(point=point, nearest_point=nearest_point, comparison_point=vals[1])) for vals in trace_point_dists if vals[0] in (nearest_point_idx - 1, nearest_point_idx + 1)]": PES}
+    out = translate_function(
+        src0, "determine_insert_approach", "determine_insert_approach",
+        {"nearest_point_idx": "Nat", "trace_point_dists": TPD, "snap_threshold": "Rat", "point": "P", "nearest_point": "P"}, "Nat × Bool", C1, types=T1,
+        extra_params=[("{P}", "Type"), ("pdist", "P → P → Rat"), ("same", "P → P → Bool"), ("angle", "P → P → P → Rat")],
+        default_num="Nat", join="tuple", nat_sub=True)
+    # the tail of insert_point_to_linestring: one insertion call whatever the dimension of the point (2-D model)
+    src = standalone(src0, "insert_point_to_linestring", [
+        (r"\(\s*t_coords\.insert\(idx, \(point\.x, point\.y\)\)\s*if not point\.has_z\s*else t_coords\.insert\(idx, \(point\.x, point\.y, point\.z\)\)\s*\)", "t_coords.insert(idx, point)"),
+    ])
+    if src.count("t_coords.insert(idx, point)") != 1:
+        raise Untranslatable("insert_point_to_linestring: the conditional insertion statement changed")
+    C2 = {
+        "list(trace.coords)": "coords",
+        "trace": "coords",
+        "point.intersects(Point(xy))": "(same point xy)",
+        "[Point(c) for c in list(trace.coords)]": "coords",
+        "trace_point.distance(point)": "(pdist trace_point point)",
+        "sorted(trace_point_dists, key=lambda vals: vals[2])": "(pySortedBy (fun vals => vals.2.2) trace_point_dists)",
+        "trace_point_dists[0][1]": "(List.headD trace_point_dists (0, point, 0)).2.1",
+        "trace_point_dists[0][0]": "(List.headD trace_point_dists (0, point, 0)).1",
+        "segment_point_dists[0][1]": "(List.headD segment_point_dists (0, point, 0)).2.1",
+        "segment_point_dists[0][0]": "(List.headD segment_point_dists (0, point, 0)).1",
+        "LineString([coord_points[i], coord_points[i + 1]]).distance(point)": "(sdist (List.getD coord_points i point) (List.getD coord_points (i + 1) point) point)",
+        "segment_dists.index(min(segment_dists))": "(pyIndexOfMin segment_dists)",
+        "determine_insert_approach(nearest_point_idx, trace_point_dists, snap_threshold, point, nearest_point)":
+            "(determine_insert_approach pdist same angle nearest_point_idx trace_point_dists snap_threshold point nearest_point)",
+        "LineString(t_coords)": "t_coords",
+        "trace.has_z": "false",
+        "point.has_z": "false",
+        "new_trace.is_simple": "true",
+    }
+    T2 = {"list(trace.coords)": "List P", "trace": "List P", "point.intersects(Point(xy))": "Bool", "[Point(c) for c in list(trace.coords)]": "List P",
+          "trace_point.distance(point)": "Rat", "trace_point_dists": TPD, "sorted(trace_point_dists, key=lambda vals: vals[2])": TPD, "vals": "Nat × P × Rat",
+          "trace_point_dists[0][1]": "P", "trace_point_dists[0][0]": "Nat", "segment_point_dists[0][1]": "P", "segment_point_dists[0][0]": "Nat",
+          "nearest_point": "P", "nearest_point_idx": "Nat", "coord_points": "List P", "segment_dists": "List Rat", "segment_point_dists": TPD,
+          "LineString([coord_points[i], coord_points[i + 1]]).distance(point)": "Rat", "segment_dists.index(min(segment_dists))": "Nat",
+          "closest_segment_idx": "Nat", "idx": "Nat", "insert": "Bool", "t_coords": "List P", "new_trace": "List P", "LineString(t_coords)": "List P",
+          "determine_insert_approach(nearest_point_idx, trace_point_dists, snap_threshold, point, nearest_point)": "Nat × Bool",
+          "trace.has_z": "Bool", "point.has_z": "Bool", "new_trace.is_simple": "Bool", "xy": "P", "trace_point": "P"}
+    out += "\n" + translate_function(
+        src, "insert_point_to_linestring", "insert_point_to_linestring",
+        {"coords": "List P", "point": "P", "snap_threshold": "Rat"}, "List P", C2, types=T2,
+        extra_params=[("{P}", "Type"), ("pdist", "P → P → Rat"), ("same", "P → P → Bool"), ("angle", "P → P → P → Rat"), ("sdist", "P → P → P → Rat")],
+        slice_from="if trace.has_z", default_num="Nat", join="tuple", nat_sub=True)
+    return out
+
 
 def b_determine_intersect(S):
     """`determine_intersect`: which ordered pair of sets an X/Y node between two sets is recorded under, or ValueError"""
@@ -1337,6 +1407,7 @@ ITEMS: List[Item] = [
     Item("BranchIdentities", BAN, ["C05", "C01"], b_branch_identities, deps=["BranchIdentity"], extra_modules=[GENERAL]),
     Item("SnapConstants", BAN, ["C01", "C03", "C06", "C16"], b_snap_constants),
     Item("SnapInsert", BAN, ["C06"], b_snap_insert),
+    Item("InsertPoint", BAN, ["C06", "C04", "C01"], b_insert_point),
     Item("SnapDriver", BAN, ["C06", "C03"], b_snap_driver),
     Item("BoundaryWeight", GENERAL, ["C08"], b_boundary_weight),
     Item("BranchBoundary", PARAMS, ["C08"], b_branch_boundary, extra_modules=[GENERAL, NETWORK]),
